@@ -113,13 +113,22 @@ func VerifC06Recurse() {
 	vObserve("diff", d.Render())
 	vAssert(len(d) > 0, "different documents give an empty diff")
 	descended := false
+	cur := []JsonNode(vClone(a).(jsonArray))
 	for _, h := range d {
 		if len(h.Path) >= 2 {
 			idx, isIdx := h.Path[0].(PathIndex)
 			vAssert(isIdx && int(idx) == p, "nested hunk does not descend into the changed container position")
 			descended = true
+			cur[p] = b[p] // the nested hunks precede every later hunk of this array
 			continue
 		}
+		// context of the hunks around the descent: the neighbours in the document as patched so far
+		idx, isIdx := h.Path[0].(PathIndex)
+		vAssert(isIdx, "hunk of an array diff does not address an array position")
+		vAssert(len(h.Before) == 1 && len(h.After) == 1, "hunk does not carry exactly one line of before- and after-context")
+		ok, next := refListHunk(cur, int(idx), h.Before, h.Remove, h.Add, h.After)
+		vAssert(ok, "hunk context/removals do not match the neighbouring elements")
+		cur = next
 		for _, r := range h.Remove {
 			vAssert(refKind(r) < 5, "container at the same position removed instead of recursed into")
 		}
